@@ -247,6 +247,14 @@ def drain(ctx):
         ctx.broken("do_pending_writes_internal not instantiated")
     for f in fs:
         la = eng.locks(f)
+        # whoever drains holds the object exclusively and is the only one who can run the queue: it waits for the list
+        # (a submitter holds it for an append only) - a try form that gives up leaves older submissions behind the caller's
+        soft = [st for st in f.stmts.values() if st["k"] == "CXXMemberCallExpr" and (st.get("callee") or {}).get("name", "").startswith("try_lock")
+                and path(f, f.s(st.get("obj"))) == "this.m_pendingList"]
+        ctx.ob(rid, not soft, f.loc(soft[0]) if soft else f.where, "the drain takes the pending list with a blocking lock", "" if not soft else
+               "%s() on the pending list: when a submitter is appending at that moment the drain returns without running the queue, and "
+               "the caller's own modification (or read) overtakes submissions that were accepted earlier" % soft[0]["callee"]["name"],
+               fn=f.label, inst=f.qname)
         swaps = [st for st in f.stmts.values() if st["k"] == "CallExpr" and callee_fq(st) in ("std::swap", "swap")
                  or (st["k"] == "CXXMemberCallExpr" and (st.get("callee") or {}).get("name") == "swap")]
         swaps = [s for s in swaps if f.pos_of(s) and la.holds(f.pos_of(s), "this.m_pendingList.m_mutex", "X")]
